@@ -55,7 +55,10 @@ func (s jsonSet) hashCode(options []Option) [8]byte {
 		hc := v.hashCode(options)
 		sMap[hc] = true
 	}
-	hashes := make(hashCodes, 0, len(sMap))
+	hashes := make(hashCodes, 0, len(sMap)+1)
+	// We start with a constant hash to distinguish a set from a string
+	// with the same bytes (e.g. an empty set from an empty string).
+	hashes = append(hashes, [8]byte{0x6A, 0x1D, 0x83, 0x5E, 0xC2, 0x47, 0x9B, 0xF0}) // random bytes
 	for hc := range sMap {
 		hashes = append(hashes, hc)
 	}
